@@ -678,8 +678,8 @@ Lemma entity_canonical cfg e e0 e' :
   save_entity e' = save_entity e /\ inv_entity e'.
 Proof.
   intros Hinv H. unfold load_entity, load_entity_with in H.
-  destruct e0 as [t0 p0 s0 handlers|n0|spec_hash st0 ht0 nt0|spec_hash st0 pw0|icap ie0 ocap oe0|cap unit un0|log2 tb0];
-  destruct e as [t q3 q4 hs|n|spec_hash0 st ht nt|spec_hash0 st pw|icap0 ielems0 ocap0 oelems0|cap0 unit0 units0|log0 tables0];
+  destruct e0 as [t0 p0 s0 handlers|n0|spec_hash st0 ht0 nt0 hh0 lh0|spec_hash st0 pw0|icap ie0 ocap oe0|cap unit un0|log2 tb0];
+  destruct e as [t q3 q4 hs|n|spec_hash0 st ht nt hh lh|spec_hash0 st pw|icap0 ielems0 ocap0 oelems0|cap0 unit0 units0|log0 tables0];
     cbn [save_entity] in H; try discriminate H;
     try (destruct p0; [|discriminate H]; destruct s0; discriminate H).
   - (* engine *)
@@ -824,8 +824,8 @@ Qed.
 
 (* ------------------------------------------------------------------ exact errors of the shape checks *)
 
-Lemma spec_mismatch cfg h st ht nt h' st' ht' nt' :
-  h <> h' -> load_entity cfg (EComp h st ht nt) (PComp h' st' ht' nt') = Err ESpecHash.
+Lemma spec_mismatch cfg h st ht nt hh lh h' st' ht' nt' hh' lh' :
+  h <> h' -> load_entity cfg (EComp h st ht nt hh lh) (PComp h' st' ht' nt' hh' lh') = Err ESpecHash.
 Proof. intros H. cbn. rewrite (str_eqb_neq _ _ H). reflexivity. Qed.
 
 Lemma evspec_mismatch cfg h st pw h' st' pw' :
@@ -934,9 +934,9 @@ Definition ex_sim : sim :=
   [ ([90], EStorage 64 8 [(16, 5); (0, 7)]);
     ([69], EEngine 10 [mk_ev 30 false [72] [101] 1; mk_ev 20 false [72] [101] 2] [] [[72]]);
     ([80; 47; 49], EPort 2 [mk_msg [109] 3] 1 []);
-    ([67], EComp [104] 9 true 40) ].
+    ([67], EComp [104] 9 true 40 true 30) ].
 Definition ex_rebuilt : sim :=
-  [ ([67], EComp [104] 0 false 0);
+  [ ([67], EComp [104] 0 false 0 false 0);
     ([80; 47; 49], EPort 2 [] 1 []);
     ([69], EEngine 0 [] [] [[72]]);
     ([90], EStorage 64 8 []) ].
@@ -1005,8 +1005,8 @@ Lemma load_entity_compat cfg e e0 :
   compat_entity_b cfg e e0 = true -> exists e', load_entity cfg e0 (save_entity e) = Ok e'.
 Proof.
   unfold load_entity, load_entity_with.
-  destruct e as [t q1 q2 hs|n|h st ht nt|h st pw|ic ie oc oe|c u units|l tables];
-  destruct e0 as [t0 p0 s0 hs0|n0|h0 st0 ht0 nt0|h0 st0 pw0|ic0 ie0 oc0 oe0|c0 u0 un0|l0 tb0];
+  destruct e as [t q1 q2 hs|n|h st ht nt hh lh|h st pw|ic ie oc oe|c u units|l tables];
+  destruct e0 as [t0 p0 s0 hs0|n0|h0 st0 ht0 nt0 hh0 lh0|h0 st0 pw0|ic0 ie0 oc0 oe0|c0 u0 un0|l0 tb0];
     cbn [compat_entity_b save_entity]; try discriminate.
   - destruct p0; [|discriminate]. destruct s0; [|discriminate]. intros H.
     apply andb_true_iff in H. destruct H as [H1 H2].
